@@ -1,12 +1,12 @@
 // Driver TU "ops": names the instantiations of the operator classes and of the forms.
-// Abstract child operators (namespace verif_abs) are declared only: bs2c renders a call to them as a call to
+// Abstract child operators (namespace bspline_verif_abs) are declared only: bs2c renders a call to them as a call to
 // an abstract C function under an assumed contract ("a deterministic function of input, grid and index").
 #include <bspline/Core.h>
 #include <utility>
 using namespace bspline;
 using namespace bspline::operators;
 using namespace bspline::integration;
-namespace verif_abs {
+namespace bspline_verif_abs {
 template <size_t K, int TAG>
 struct AbsUp final : public bspline::operators::Operator {
   static constexpr size_t outputOrder(size_t inputOrder) { return inputOrder + K; }
@@ -14,8 +14,8 @@ struct AbsUp final : public bspline::operators::Operator {
   std::array<T, size + K> transform(const std::array<T, size> &input, const bspline::support::Grid<T> &grid,
                                     size_t intervalIndex) const;
 };
-}  // namespace verif_abs
-using verif_abs::AbsUp;
+}  // namespace bspline_verif_abs
+using bspline_verif_abs::AbsUp;
 
 template <typename O, size_t... S>
 void tr_sizes(const O &o, const Grid<double> &g, std::index_sequence<S...>) {
@@ -101,3 +101,12 @@ void use(const Grid<double> &g, const Spline<double, 0> &s0, const Spline<double
   (void)BilinearForm{X<1>{}}.evaluate(s1, s1);
   (void)BilinearForm{Dx<1>{}, Dx<1>{}}.evaluate(s2, s2);
 }
+
+// the private per-interval kernels of the forms for every size pair up to 4 x 4 (explicit instantiation ignores access)
+#define BF bspline::integration::BilinearForm<bspline::operators::IdentityOperator, bspline::operators::IdentityOperator>
+#define BFK(A, B) template double BF::evaluateInterval<double, A, B>(const std::array<double, A> &, const std::array<double, B> &, const double &);
+BFK(1, 1) BFK(1, 2) BFK(1, 3) BFK(1, 4) BFK(2, 1) BFK(2, 2) BFK(2, 3) BFK(2, 4)
+BFK(3, 1) BFK(3, 2) BFK(3, 3) BFK(3, 4) BFK(4, 1) BFK(4, 2) BFK(4, 3) BFK(4, 4)
+#define LF bspline::integration::LinearForm<bspline::operators::IdentityOperator>
+#define LFK(A) template double LF::evaluateInterval<double, A>(const std::array<double, A> &, const double &);
+LFK(1) LFK(2) LFK(3) LFK(4) LFK(5) LFK(6)
